@@ -433,6 +433,14 @@ let malloc_script (x : ctx) consts (hp : int) : unit =
   let tid = x.c.tid in
   (* retired / delayed-free pages of the heap that are freed on the way (and on the out-of-memory path: mi_heap_collect) *)
   free_gone_pages x tid (fun (_, _, h, _, l, _) -> h = hp && l = 0) (fun _ -> false);
+  (* a huge segment whose block was freed by another thread is freed on the way (delayed free), and the fresh huge segment of
+     this call may get the same address *)
+  iter_changed_a x (fun addr (sa : rseg) ->
+    if sa.huge && sa.owner = tid then
+      match pages_of sa, bseg x addr with
+      | [(_, c, h, t, 0, _)], Some sb when h = hp && sb.huge && L.exists (fun (_, _, _, _, lb, _) -> lb > 0) (pages_of sb) ->
+        ignore (free_page x addr (h, t, false, c))
+      | _ -> ());
   try_reclaim_rounds x hp;
   collect_visits x hp;
   fresh_segments x consts hp;
@@ -458,7 +466,9 @@ let local_free_effects (x : ctx) (seg : int) (slice : int) : unit =
              let heap_is hb (p : B.page) = (match p.B.p_heap with Some hp -> i_n hp.B.h_id = hb | None -> hb = 0) in
              let base (p : B.page) = i_n p.B.p_tag = t && p.B.p_used && i_n p.B.p_slices = c in
              let cands = (match cp with
-                 | Some (_, _, hb, _, _, _) -> [(fun p -> base p && heap_is hb p)]
+                 | Some (_, _, hb, tb, _, _) -> [(fun p -> base p && heap_is hb p);
+                                                 (* an adopted page takes the tag of the heap it goes to *)
+                                                 (fun p -> i_n p.B.p_tag = tb && p.B.p_used && i_n p.B.p_slices = c && heap_is hb p)]
                  | None -> if h <> 0 then [(fun p -> base p && heap_is h p)]
                    else [(fun p -> base p && heap_is 0 p); base;
                          (* an adopted page without a heap of its tag takes the tag of the adopting heap *)
@@ -481,10 +491,10 @@ let local_free_effects (x : ctx) (seg : int) (slice : int) : unit =
       | None -> ())
    | None -> ())
 
-let free_script (x : ctx) (seg : int) (slice : int) (def : int) : unit =
+let free_script (x : ctx) (seg : int) (slice : int) (def : int) (rof : bool) : unit =
   let tid = x.c.tid in
   (match mseg x seg with
-   | Some ms when i_n ms.B.s_owner = 0 ->
+   | Some ms when i_n ms.B.s_owner = 0 && rof ->      (* mi_option_abandoned_reclaim_on_free *)
      (match bseg x seg with
       | None -> x.adopters <- def :: x.adopters; apply x (B.OAttemptReclaim (n_i def, ms.B.s_id, true, true))
       | Some sb when sb.owner = tid -> x.adopters <- def :: x.adopters; apply x (B.OAttemptReclaim (n_i def, ms.B.s_id, true, true))
@@ -571,7 +581,7 @@ let explain (x : ctx) consts : unit =
       rename_new_heap x (ios ptr)
     end
   | "malloc", [heap; _], _ -> malloc_script x consts (ios heap)
-  | "free", [_; seg; slice; def; _], _ -> free_script x (ios seg) (ios slice) (ios def)
+  | "free", [_; seg; slice; def; rof], _ -> free_script x (ios seg) (ios slice) (ios def) (rof <> "0")
   | "collect", [force; def], _ -> collect_script x (force = "1") (ios def)
   | "heap_delete", [h; s; sl], _ -> delete_script x (ios h) (ios s) (ios sl) false
   | "heap_destroy", [h; s; sl], _ -> delete_script x (ios h) (ios s) (ios sl) true
